@@ -317,7 +317,8 @@ def check_combination(ctx, case_seed):
                       '    def marked(arg, *args, **kwargs): return ("marked", fn(arg, *args, **kwargs))', '    return marked']
         else:
             lines += ['@wrappers.decorator', 'def mark(fn, arg, *args, **kwargs): return ("marked", fn(arg, *args, **kwargs))']
-        lines.append('M = mark(wrappers.Combination(c0, c1))')
+        lines.append('IN = wrappers.Combination(c0, c1)')
+        lines.append('M = mark(IN)')
         lines.append('C = wrappers.Combination(M, c2)')
     else:
         lines.append('C = wrappers.Combination(%s)' % ', '.join('c%d' % i for i in range(k)))
@@ -341,6 +342,14 @@ def check_combination(ctx, case_seed):
         return arg
     bl = [sigs.shape_key(p) for p in plists]
     consistent = oracle.strictly_role_consistent(bl)
+    if member_deco:
+        # the decorated member must have a signature of its own for the outer one to mean anything: when the inner
+        # combination is incompatible its wrapper falls back to the plain (arg, *args, **kwargs), which is always admitted
+        try:
+            sigtools.signature(g['IN'])
+        except ValueError:
+            consistent = False
+            ctx.count('C13.combination_member_without_signature')
     try:
         s_sig = sigtools.signature(C)
         i_sig = inspect.signature(C)
